@@ -812,6 +812,21 @@ class C09(BtProp):
                 got = o.W.get(key)
                 if path == "-" and got != "s:" + cs and not self._overwritten(sh, o, d, key):
                     out.append(viol("publish", "StatusToBlackboard %d child %s but %s=%s" % (d, cs, key, got)))
+                if path != "-" and got is not None and got.startswith("o{") and not self._overwritten(sh, o, d, key):
+                    # nested variable name key.a.b: when that attribute path exists afterwards it holds the status
+                    from props_bb import get_path
+                    from common import val_parse, val_str
+                    # (its parent object exists: the write creates / overwrites the last attribute)
+                    parts = path.split(".")
+                    try:
+                        v = val_parse(got)
+                        okp, _ = get_path(v, parts[:-1])
+                        ok, x = get_path(v, parts)
+                    except Exception:
+                        okp = ok = False
+                    if okp and (not ok or val_str(x) != "s:" + cs):
+                        out.append(viol("publish-nested", "StatusToBlackboard %d child %s but %s.%s=%s"
+                                        % (d, cs, key, path, val_str(x) if ok else "<missing>")))
             if k == "count" and prev is not None and d in prev.N and not interrupted_later(sh, o, d):
                 a = [int(x) for x in prev.N[d][2][1:].split(",")]
                 b = [int(x) for x in o.N[d][2][1:].split(",")]
